@@ -34,7 +34,8 @@ FAILS = ["syntax", "runtime", "load", "missing", "number", "boolean", "table", "
 PIECES = ["alpha", "beta gamma", "  lead", "trail  ", "é ü", "日本語", "\U0001F600", "it's", 'say "hi"', "a=b", "<tag>", "x > y", "1 + 2",
           "id: 42", "id: seven", " nbsp ", " emsp", "tab\there", "100%", "{json: [1,2]}", "(paren)", "semi;colon", "start", "end",
           "zzz", "-- dash", "$var", "@at", "~tilde", "^caret", "|pipe|", "comma, separated", "q?", "e!"]
-PATTERNS = [None, None, None, r"(?P<value>\d+)", r"id: (\w+)", r"(?s)start.*end", r"^zzz$", r"(?m)^\s*(?P<value>\S+)$", r"(?P<value>[^\x00-\x7f]+)"]
+PATTERNS = [None, None, None, r"(?P<value>\d+)", r"id: (\w+)", r"(?s)start.*end", r"^zzz$", r"(?m)^\s*(?P<value>\S+)$", r"(?P<value>[^\x00-\x7f]+)",
+            r"(?s).*", r"(?P<value>\s+\S+\s+)", r"\S+[ \t]+"]
 
 
 def plan(tier, seed):
